@@ -49,6 +49,65 @@ Proof. induction cs as [|a cs IH]; intros idx c v p; [reflexivity|].
   destruct idx as [|i idx]; [reflexivity|]. cbn [evalv].
   rewrite <- sumn_mul_l by assumption. apply sumn_ext. intros q _. rewrite IH. ring. Qed.
 
+
+(* ---------------- L0: congruence on in-range entries ---------------- *)
+Definition score_eq_in (a b : score) : Prop :=
+  rl a = rl b /\ rr a = rr b /\ dm a = dm b /\
+  forall i p q, (i < dm a)%nat -> (p < rl a)%nat -> (q < rr a)%nat -> sl a i p q = sl b i p q.
+
+Lemma L0 (xs : list score) : forall ys r idx v w p,
+  Forall2 score_eq_in xs ys -> chain r xs = true -> in_range (sshape xs) idx = true ->
+  (p < r)%nat -> (forall q, (q < last_rr r xs)%nat -> v q = w q) ->
+  evalv xs idx v p = evalv ys idx w p.
+Proof.
+  induction xs as [|a xs IH]; intros ys r idx v w p HF Hc Hr Hp Hv.
+  - inversion HF; subst. destruct idx; [|discriminate]. apply Hv. exact Hp.
+  - inversion HF as [|? b ? ys' (E1 & E2 & E3 & E4) HF']; subst.
+    destruct idx as [|i idx]; [discriminate|].
+    cbn [sshape map in_range] in Hr. apply andb_true_iff in Hr. destruct Hr as [Hi Hr].
+    apply Nat.ltb_lt in Hi.
+    cbn [chain] in Hc. apply andb_true_iff in Hc. destruct Hc as [Hrl Hc]. apply Nat.eqb_eq in Hrl.
+    cbn [evalv]. rewrite <- E2. apply sumn_ext. intros q Hq.
+    rewrite E4 by (auto; lia). f_equal.
+    apply (IH ys' (rr a)); auto.
+Qed.
+
+Lemma score_eq_in_refl (a : score) : score_eq_in a a.
+Proof. repeat split; auto. Qed.
+
+Lemma Forall2_score_eq_refl (xs : list score) : Forall2 score_eq_in xs xs.
+Proof. induction xs; constructor; auto using score_eq_in_refl. Qed.
+
+Lemma L0_eval (xs ys : list score) idx :
+  Forall2 score_eq_in xs ys -> chain (match xs with c :: _ => rl c | [] => O end) xs = true ->
+  in_range (sshape xs) idx = true -> eval xs idx = eval ys idx.
+Proof.
+  intros HF Hc Hr. destruct xs as [|a xs]; inversion HF as [|? b ? ys' E HF']; subst; [reflexivity|].
+  unfold eval. destruct E as (E1 & _). rewrite <- E1. apply sumn_ext. intros p Hp.
+  eapply L0; eauto.
+Qed.
+
+
+(* unbounded congruence *)
+Definition score_eq (a b : score) : Prop :=
+  rl a = rl b /\ rr a = rr b /\ forall i p q, sl a i p q = sl b i p q.
+
+Lemma evalv_score_eq (xs : list score) : forall ys idx v p,
+  Forall2 score_eq xs ys -> evalv xs idx v p = evalv ys idx v p.
+Proof.
+  induction xs as [|a xs IH]; intros ys idx v p HF; inversion HF as [|? b ? ys' (E1 & E2 & E3) HF']; subst.
+  - reflexivity.
+  - destruct idx as [|i idx]; [reflexivity|]. cbn [evalv]. rewrite <- E2.
+    apply sumn_ext. intros q _. rewrite E3. f_equal. apply IH; auto.
+Qed.
+
+Lemma eval_score_eq (xs ys : list score) idx : Forall2 score_eq xs ys -> eval xs idx = eval ys idx.
+Proof.
+  intros HF. destruct xs as [|a xs]; inversion HF as [|? b ? ys' E HF']; subst; [reflexivity|].
+  unfold eval. destruct E as (E1 & _). rewrite <- E1. apply sumn_ext. intros p _.
+  apply evalv_score_eq; auto.
+Qed.
+
 (* ---------------- L5: re-index / restrict a mode ---------------- *)
 Lemma L5 g d' (cs : list score) : forall k idx c i v p,
   nth_error cs k = Some c -> nth_error idx k = Some i ->
@@ -354,3 +413,4 @@ Theorem L8 pre r0 (cs : list score) idxp i idx v p :
 Proof. intros. eapply evalv_app_ext_b; eauto. intros. apply L8_head; auto. Qed.
 
 End Moves.
+Arguments score_eq_in {K}. Arguments score_eq {K}. Arguments vecmat {K}. Arguments prop {K}.
